@@ -8,3 +8,6 @@ import XzVerif.Props.C17
 #print axioms Props.C17.C17_run_proposal_inside_the_ring
 #print axioms Props.C17.C17_run_proposal_at_the_ring_end
 #print axioms Props.C17.C17_run_compresses_partial
+#print axioms Props.C17.C17_run_compresses_partial_213
+#print axioms Props.C17.C17_run_compresses_partial_bintree
+#print axioms Props.C17.C17_xz_run_compresses_partial
